@@ -1098,10 +1098,20 @@ func main() {
 	hostileEvery := flag.Int("hostile-every", 4, "every k-th RDMA history uses the hostile stream")
 	lazyEvery := flag.Int("lazy-every", 5, "every k-th RDMA history has back-pressure on the control port")
 	busyEvery := flag.Int("busy-every", 5, "every k-th RDMA history piles up transactions on one path and ends with a fair tail for the other")
+	bench := flag.String("bench", "fir", "e2e: benchmark")
+	size := flag.Int("size", 1024, "e2e: problem size (fir/relu: elements, matrixtranspose: width)")
+	gpuList := flag.String("gpus", "1", "e2e: GPU IDs, ascending")
+	unified := flag.Bool("unified", false, "e2e: bundle the GPUs into one unified device")
+	timing := flag.Bool("timing", false, "e2e: timing platform instead of emulation")
 	out := flag.String("out", "", "output JSON file")
 	rep := flag.String("replay", "", "JSON file with cases to replay")
 	flag.Parse()
 	log.SetOutput(io.Discard) // the component logs before it panics
+
+	if *mode == "e2e" {
+		runE2E(*bench, *size, *gpuList, *unified, *timing)
+		return
+	}
 
 	var result interface{}
 	rng := vh.NewRng(*seed)
